@@ -341,7 +341,7 @@ def run(ctx: Ctx) -> None:
     }
     for c in cases[:: max(1, len(cases) // 5)][:6]:
         ctx.sample(D.short(c))
-    D.explore(ctx, cases, judge, 100 if ctx.quick else 2400, rule=RULE)
+    D.explore(ctx, cases, judge, 110 if ctx.quick else 2400, rule=RULE)
 
 
 def replay(ctx: Ctx, obj: dict) -> bool:
